@@ -12,6 +12,7 @@ use super::*;
 //@include prelude/hof.rs
 //@include prelude/resolve_spec.rs
 //@include prelude/scope_order.rs
+//@include prelude/resolve_l2.rs
 } // mod pre
 use pre::*;
 
@@ -25,27 +26,167 @@ pub mod resolver { // mirrors crate::fixtures::resolver so that `super::types::â
 use super::*;
 impl FixtureDatabase {
     pub open spec fn fdefs(&self) -> Map<PV, Set<Seq<char>>> { fdefs_view(self.file_definitions.m()) }
+    pub open spec fn provf(&self) -> spec_fn(Seq<char>) -> spec_fn(PV) -> bool { |n: Seq<char>| self.prov(n) }
+
+//@stub resolver_core find_closest_definition
+//@stub resolver_core find_closest_definition_excluding
 
 /*@ extract src/fixtures/resolver.rs detect_scope_mismatches_in_file
 @tags C16 C08
 @ret r
 @nocontinue 1
+@closure 1 |d: &&FixtureDefinition| -> (b: bool) ensures b == (pbv(&d.file_path) == pv(file_path))
 @sig
+    requires wf_names(self.defs()),
     ensures
-        forall|k: int| 0 <= k < r@.len() ==> #[trigger] is_mismatch(self.defs(), self.fdefs(), pv(file_path), dv(&r@[k].fixture), dv(&r@[k].dependency)),
+        // soundness: every reported pair is a mismatch under pytest's resolution from this file
+        forall|k: int| 0 <= k < r@.len() ==> #[trigger] is_mismatch(self.defs(), self.fdefs(), self.provf(), pv(file_path), dv(&r@[k].fixture), dv(&r@[k].dependency)),
+        // completeness: every such mismatch is reported
+        forall|f: DefV, d: DefV| #[trigger] is_mismatch(self.defs(), self.fdefs(), self.provf(), pv(file_path), f, d) ==> reported(r@, f, d),
+@after fixture_names 1
+    let ghost names0 = fixture_names.r.s();
+    let ghost mut done: Set<Seq<char>> = Set::empty();
+    let ghost file = pv(file_path);
+    proof { assert(names0 == self.fdefs()[file]); }
+@loopvar 1 it
+@loop 1
+    invariant
+        file == pv(file_path), self.fdefs().contains_key(file), names0 == self.fdefs()[file], wf_names(self.defs()),
+        forall|j: int| 0 <= j < it.seq().len() ==> names0.contains((#[trigger] it.seq()[j])@),
+        forall|n: Seq<char>| names0.contains(n) ==> exists|j: int| 0 <= j < it.seq().len() && (#[trigger] it.seq()[j])@ == n,
+        forall|j: int| 0 <= j < it.index@ ==> done.contains((#[trigger] it.seq()[j])@),
+        forall|k: int| 0 <= k < mismatches@.len() ==> #[trigger] is_mismatch(self.defs(), self.fdefs(), self.provf(), file, dv(&mismatches@[k].fixture), dv(&mismatches@[k].dependency)),
+        forall|n: Seq<char>| done.contains(n) ==> #[trigger] name_done(self.defs(), self.provf(), file, n, mismatches@),
+@loopstart 1
+    let ghost nm = fixture_name@;
+@before for 2
+    let ghost fx = dv(fixture_def);
+    proof {
+        let s = definitions.r@.as_ref();
+        let i = choose|i: int| 0 <= i < s.len() && s[i] == fixture_def && (forall|j: int| 0 <= j < i ==> pbv(&(#[trigger] s[j]).file_path) != file);
+        assert forall|j: int| 0 <= j < i implies !p_same(file, fs_true())(#[trigger] dvs(definitions.r@)[j]) by { let y = s[j]; }
+        lemma_first_idx(dvs(definitions.r@), p_same(file, fs_true()), i);
+        assert(first_match(self.defs()[nm], p_same(file, fs_true())) == Some(fx));
+        assert(self.defs()[nm][i] == fx);
+        assert(self.defs()[nm][i].name == nm);
+    }
+@loopvar 2 it2
+@loop 2
+    invariant
+        file == pv(file_path), self.fdefs().contains_key(file), names0 == self.fdefs()[file], names0.contains(nm), wf_names(self.defs()),
+        fx == dv(fixture_def), fx.name == nm, self.defs().contains_key(nm),
+        first_match(self.defs()[nm], p_same(file, fs_true())) == Some(fx),
+        it2.seq() == fixture_def.dependencies@.as_ref(),
+        forall|k: int| 0 <= k < mismatches@.len() ==> #[trigger] is_mismatch(self.defs(), self.fdefs(), self.provf(), file, dv(&mismatches@[k].fixture), dv(&mismatches@[k].dependency)),
+        forall|n: Seq<char>| done.contains(n) ==> #[trigger] name_done(self.defs(), self.provf(), file, n, mismatches@),
+        forall|j: int| 0 <= j < it2.index@ ==> (match #[trigger] dep_target(self.defs(), self.provf(), file, fx, j) {
+            Some(d) => rank(fx.scope) > rank(d.scope) ==> reported(mismatches@, fx, d), None => true }),
+@loopstart 2
+    let ghost j0 = it2.index@ as int;
+    let ghost before = mismatches@;
+    proof { assert(fixture_def.dependencies@[j0] == *dep_name); assert(fx.dependencies[j0] == dep_name@); }
+@loopend 2
+    proof {
+        assert(opt_dv(dep_def) == dep_target(self.defs(), self.provf(), file, fx, j0));
+        lemma_reported_mono(before, mismatches@);
+        lemma_name_done_mono(self.defs(), self.provf(), file, before, mismatches@);
+        assert forall|n: Seq<char>| done.contains(n) implies #[trigger] name_done(self.defs(), self.provf(), file, n, mismatches@) by {
+            assert(name_done(self.defs(), self.provf(), file, n, before));
+        }
+        if mismatches@.len() > before.len() {
+            let k = before.len() as int;
+            assert(dv(&mismatches@[k].fixture) == fx);
+            let d = dv(&mismatches@[k].dependency);
+            assert(is_mismatch(self.defs(), self.fdefs(), self.provf(), file, fx, d)) by { reveal(is_mismatch); }
+            assert(reported(mismatches@, fx, d)) by { reveal(reported); }
+        }
+    }
+@after for 2
+    proof {
+        assert(name_done(self.defs(), self.provf(), file, nm, mismatches@)) by { reveal(name_done); }
+    }
+@continueproof 1 1
+    assert(name_done(self.defs(), self.provf(), file, nm, mismatches@)) by { reveal(name_done); }
+@continueproof 1 2
+    assert(name_done(self.defs(), self.provf(), file, nm, mismatches@)) by {
+        reveal(name_done);
+        let s = definitions.r@.as_ref();
+        let ds = dvs(definitions.r@);
+        assert forall|j: int| 0 <= j < ds.len() implies !p_same(file, fs_true())(#[trigger] ds[j]) by { let y = s[j]; }
+        lemma_first_none(ds, p_same(file, fs_true()));
+    }
+@loopend 1
+    proof {
+        assert(name_done(self.defs(), self.provf(), file, nm, mismatches@));
+        done = done.insert(nm);
+    }
+@return tail
+    assert forall|f: DefV, d: DefV| #[trigger] is_mismatch(self.defs(), self.fdefs(), self.provf(), file, f, d) implies reported(mismatches@, f, d) by {
+        assert(names0.contains(f.name)) by { reveal(is_mismatch); }
+        assert(done.contains(f.name));
+        lemma_complete(self.defs(), self.fdefs(), self.provf(), file, f, d, mismatches@);
+    }
+@return 1
+    assert forall|f: DefV, d: DefV| !#[trigger] is_mismatch(self.defs(), self.fdefs(), self.provf(), pv(file_path), f, d) by { reveal(is_mismatch); }
 @*/
 }
 } // mod resolver
 use resolver::*;
 
-/// what one reported pair is: F = the first definition in `file` of a name listed for the file, D = the first
-/// registered definition of one of F's dependencies, and F's scope is broader than D's
-pub open spec fn is_mismatch(defs: Map<Seq<char>, Seq<DefV>>, fdefs: Map<PV, Set<Seq<char>>>, file: PV, f: DefV, d: DefV) -> bool {
+/// the definition pytest resolves F's j-th dependency to, seen from F's file (own name -> overridden parent)
+pub open spec fn wf_names(defs: Map<Seq<char>, Seq<DefV>>) -> bool {
+    forall|n: Seq<char>, i: int| defs.contains_key(n) && 0 <= i < defs[n].len() ==> (#[trigger] defs[n][i]).name == n
+}
+pub proof fn lemma_reported_mono(a: Seq<ScopeMismatch>, b: Seq<ScopeMismatch>)
+    requires a.len() <= b.len(), forall|k: int| 0 <= k < a.len() ==> a[k] == b[k]
+    ensures forall|f: DefV, d: DefV| #[trigger] reported(a, f, d) ==> reported(b, f, d)
+{
+    reveal(reported);
+    assert forall|f: DefV, d: DefV| #[trigger] reported(a, f, d) implies reported(b, f, d) by {
+        let k = choose|k: int| 0 <= k < a.len() && dv(&(#[trigger] a[k]).fixture) == f && dv(&a[k].dependency) == d;
+        assert(b[k] == a[k]);
+    }
+}
+/// all mismatches of the fixture registered for `file` under name n have been reported
+#[verifier::opaque]
+pub open spec fn name_done(defs: Map<Seq<char>, Seq<DefV>>, provf: spec_fn(Seq<char>) -> spec_fn(PV) -> bool, file: PV, n: Seq<char>, ms: Seq<ScopeMismatch>) -> bool {
+    defs.contains_key(n) ==> match first_match(defs[n], p_same(file, fs_true())) {
+        None => true,
+        Some(fx) => forall|j: int| 0 <= j < fx.dependencies.len() ==> (match #[trigger] dep_target(defs, provf, file, fx, j) {
+            Some(d) => rank(fx.scope) > rank(d.scope) ==> reported(ms, fx, d), None => true }),
+    }
+}
+pub proof fn lemma_name_done_mono(defs: Map<Seq<char>, Seq<DefV>>, provf: spec_fn(Seq<char>) -> spec_fn(PV) -> bool, file: PV, a: Seq<ScopeMismatch>, b: Seq<ScopeMismatch>)
+    requires a.len() <= b.len(), forall|k: int| 0 <= k < a.len() ==> a[k] == b[k]
+    ensures forall|n: Seq<char>| #[trigger] name_done(defs, provf, file, n, a) ==> name_done(defs, provf, file, n, b)
+{
+    reveal(name_done);
+    lemma_reported_mono(a, b);
+}
+pub proof fn lemma_complete(defs: Map<Seq<char>, Seq<DefV>>, fdefs: Map<PV, Set<Seq<char>>>, provf: spec_fn(Seq<char>) -> spec_fn(PV) -> bool, file: PV, f: DefV, d: DefV, ms: Seq<ScopeMismatch>)
+    requires is_mismatch(defs, fdefs, provf, file, f, d), name_done(defs, provf, file, f.name, ms)
+    ensures reported(ms, f, d)
+{
+    reveal(is_mismatch); reveal(name_done);
+    let j = choose|j: int| 0 <= j < f.dependencies.len() && #[trigger] dep_target(defs, provf, file, f, j) == Some(d);
+}
+pub open spec fn dep_target(defs: Map<Seq<char>, Seq<DefV>>, provf: spec_fn(Seq<char>) -> spec_fn(PV) -> bool, file: PV, f: DefV, j: int) -> Option<DefV> {
+    let dep = f.dependencies[j];
+    if dep == f.name { op_resolve(bucket(defs, dep), file, provf(dep), fs_excl(Some(f))) }
+    else { op_resolve(bucket(defs, dep), file, provf(dep), fs_true()) }
+}
+/// what one reported pair is: F = the first definition in `file` of a name listed for the file, D = the
+/// definition resolution selects from `file` for one of F's dependencies, and F's scope is broader than D's
+#[verifier::opaque]
+pub open spec fn is_mismatch(defs: Map<Seq<char>, Seq<DefV>>, fdefs: Map<PV, Set<Seq<char>>>, provf: spec_fn(Seq<char>) -> spec_fn(PV) -> bool, file: PV, f: DefV, d: DefV) -> bool {
     fdefs.contains_key(file) && fdefs[file].contains(f.name) && defs.contains_key(f.name)
     && first_match(defs[f.name], p_same(file, fs_true())) == Some(f)
-    && (exists|j: int| 0 <= j < f.dependencies.len() && defs.contains_key(#[trigger] f.dependencies[j])
-            && defs[f.dependencies[j]].len() > 0 && defs[f.dependencies[j]][0] == d)
+    && (exists|j: int| 0 <= j < f.dependencies.len() && #[trigger] dep_target(defs, provf, file, f, j) == Some(d))
     && rank(f.scope) > rank(d.scope)
+}
+#[verifier::opaque]
+pub open spec fn reported(rs: Seq<ScopeMismatch>, f: DefV, d: DefV) -> bool {
+    exists|k: int| 0 <= k < rs.len() && dv(&(#[trigger] rs[k]).fixture) == f && dv(&rs[k].dependency) == d
 }
 } // verus!
 fn main() {}
